@@ -9,7 +9,11 @@ bilinear transformation with step `T`, exactly), a gain `k`:
 so the numbers `P` (open-loop unstable poles) and `Z` (closed-loop unstable poles) are known
 without any root finding.
 
-Per case three driver lines:
+Loops can also be given *forwards* (`form: zpk`: zeros `zr`, poles `ol` in the plane the system lives in, gain
+`k`, L = k prod(x - z_i)/prod(x - p_i)); then Z is counted exactly by Routh tables over Q (`c13_exact`), for the exact
+polynomial and for the binary64 coefficients the implementation receives.
+
+Per case five driver lines:
  (a) `count`   – the model's unwrap/count applied to the implementation's own samples
                  `response.response` (exact rationals of the floats) and `np.angle(resp+1)` (external,
                  quadrant contract checked by the driver) vs `response.count`;
@@ -18,10 +22,16 @@ Per case three driver lines:
                  frequency vector vs `response.contour` (sqrt / exp applied here: external);
  (c) `pz`      – the model's P/Z conventions on the implementation's own poles vs the presence of
                  the "does not match Nyquist criterion" warning;
+ (d) `grid`    – the model's exponents of the logarithmic default grid (`nyquistExponents`: periphery 2 forwarded,
+                 rint, freq_interesting) on the log10 of the implementation's own pole / zero magnitudes vs the grid the
+                 contour comparison (b) is fed with and vs the grid of the implementation's helper;
+ (e) `omega`   – the model's `defaultOmega` (linspace from 0, cut below / append the Nyquist frequency) vs the
+                 frequencies (b) is fed with;
 and, outside the driver, the property itself: `response.count == Z - P` whenever the loop is inside
 the quantifier of the property (see `in_claim`)."""
 import math
 import warnings
+import zlib
 from fractions import Fraction
 
 import numpy as np
@@ -31,11 +41,13 @@ from control import freqplot as _fp
 from core.runner import Family, Verdict, AGREE, VIOLATES, DIFFERS, canon
 from core.exact import fr, tok
 from families.c13_arg import hypotheses_label   # C13-argprinciple: hypotheses of C13Arg.count_continuous
+from families import c13_exact as X               # exact root counting (forward-built loops), mechanism of a wrong count
 
 F = Fraction
 PI_TOK = tok(fr(math.pi))
 EPS_TOK = "1/1000000000"
 GUARD_RADII = 5            # "a few indentation radii"
+FWD_KINDS = ("highgain", "zpk", "dcircle")
 
 
 # ----------------------------------------------------------------------------
@@ -87,8 +99,48 @@ def bilinear(r, T):
     return ["c", re, im]
 
 
+def same_root(a, b):
+    return a[0] == b[0] and all(F(x) == F(y) for x, y in zip(a[1:], b[1:]))
+
+
+def fwd(case):
+    """loop given forwards: zeros `zr`, poles `ol` (both in the plane the system lives in: s or z) and gain `k`;
+    Z is then counted exactly by the Routh table (c13_exact) instead of being chosen"""
+    return case.get("form") == "zpk"
+
+
+def native_root(rt, case):
+    """the root in the plane the system lives in"""
+    if fwd(case) or not case["disc"]:
+        return rt
+    return bilinear(rt, case_T(case))
+
+
+def unstable_root(rt, disc):
+    """exact: Re > 0 (continuous) / |z| > 1 (discrete) for a root given in the native plane"""
+    a = F(rt[1])
+    if not disc:
+        return a > 0
+    b = F(rt[2]) if rt[0] == "c" else F(0)
+    return a * a + b * b > 1
+
+
+_BUILD = {}
+
+
 def build(case):
     """-> (num, den) lists of Fraction (highest power first), P, Z (exact)"""
+    if fwd(case):
+        key = canon(case)
+        if key not in _BUILD:
+            if len(_BUILD) > 50000:
+                _BUILD.clear()
+            den = from_roots(case["ol"])
+            num = [F(case["k"]) * x for x in from_roots(case["zr"])]
+            P = sum(mult(r) for r in case["ol"] if unstable_root(r, case["disc"]))
+            Z = X.unstable_count(X.padd(den, num), case["disc"])     # None: not determined (rejected by valid)
+            _BUILD[key] = (num, den, P, Z)
+        return _BUILD[key]
     ol, cl, k = case["ol"], case["cl"], F(case["k"])
     P = sum(mult(r) for r in ol if F(r[1]) > 0)
     Z = sum(mult(r) for r in cl if F(r[1]) > 0)
@@ -101,9 +153,13 @@ def build(case):
     return num, den, P, Z
 
 
+def float_coeffs(case):
+    num, den, _, _ = build(case)
+    return [float(x) for x in num], [float(x) for x in den]
+
+
 def make_system(case):
-    num, den, P, Z = build(case)
-    numf, denf = [float(x) for x in num], [float(x) for x in den]
+    numf, denf = float_coeffs(case)
     if case["disc"]:
         dt = True if case["T"] == "true" else float(F(case["T"]))
         sys = ct.tf(numf, denf, dt)
@@ -116,6 +172,16 @@ def make_system(case):
 
 def valid(case):
     try:
+        if fwd(case):
+            if deg(case["ol"]) == 0 or deg(case["zr"]) > deg(case["ol"]) or F(case["k"]) == 0:
+                return False
+            if any(same_root(z, q) for z in case["zr"] for q in case["ol"]):   # exact pole/zero cancellation
+                return False
+            if case["disc"] and case_T(case) <= 0:
+                return False
+            num, den, _, Z = build(case)
+            cl = X.padd(den, num)
+            return cl[0] != 0 and Z is not None                   # closed loop of full order, Z determined
         if case["disc"]:
             T = case_T(case)
             for r in case["ol"] + case["cl"]:
@@ -143,6 +209,20 @@ def cpair(z):
     return fr(z.real), fr(z.imag)
 
 
+def ftok(x):
+    """tok(fr(x)) for a finite binary64 number without building a Fraction (the driver lines hold thousands)"""
+    x = float(x)
+    if x != x or x in (math.inf, -math.inf):
+        raise ValueError("non-finite")
+    n, d = x.as_integer_ratio()
+    return str(n) if d == 1 else "%d/%d" % (n, d)
+
+
+def ctoks(z):
+    z = complex(z)
+    return [ftok(z.real), ftok(z.imag)]
+
+
 def splane_poles(sys, which):
     """the poles exactly as nyquist_response derives them (lines 1381-1396)"""
     s = sys if which == "ol" else sys.feedback()
@@ -154,20 +234,85 @@ def splane_poles(sys, which):
         return p, np.log(z) / sys.dt
 
 
-def default_omega(sys, indent_points):
-    """omega_sys before any insertion (lines 1334-1369), default arguments"""
-    num = ct.config._get_param("freqplot", "number_of_samples", None)
-    omega, given = _fp._determine_omega_vector([sys], None, None, num, feature_periphery_decades=2)
-    assert not given
-    omega = np.concatenate((np.linspace(0, omega[0], indent_points), omega[1:]))
+def spec_features(sys):
+    """(log10 of the features, log10 of freq_interesting), selected exactly as `_default_frequency_range` does
+    (lines 2779-2820): the inputs of the Lean model `Nyquist.rangeExponents` (log10 is external)"""
+    interesting = []
+    if sys.isctime():
+        f = np.concatenate((np.abs(sys.poles()), np.abs(sys.zeros())))
+        f = f[~np.isclose(f, 0.0)]
+    else:
+        fn = math.pi / sys.dt
+        interesting.append(fn * 0.9)
+        f = np.concatenate((np.abs(sys.poles()), np.abs(sys.zeros())))
+        drop = np.isclose(f.imag, 0.0) & ((f.real <= 0.) | (np.abs(f.real - 1.0) < 1.e-10))
+        f = f[~drop]
+        with np.errstate(all="ignore"):
+            f = np.abs(np.log(f) / (1.j * sys.dt))
+    if f.shape[0] == 0:
+        f = np.array([1.])
+    with np.errstate(all="ignore"):
+        return np.log10(f), np.log10(np.array(interesting, dtype=float))
+
+
+def spec_exponents(logs, interesting, decades=2):
+    """binary64 replica of lines 2821-2829 (the Lean model computes the same over Q; compared on every case)"""
+    lo = np.rint(np.min(logs) - decades)
+    hi = np.rint(np.max(logs) + decades)
+    if len(interesting):
+        lo = min(lo, np.min(interesting))
+        hi = max(hi, np.max(interesting))
+    return float(lo), float(hi)
+
+
+def rint_marginal(logs, decades=2):
+    """np.rint of a binary64 sum next to a tie: exact arithmetic may round the other way"""
+    for x in (float(np.min(logs)) - decades, float(np.max(logs)) + decades):
+        if abs(abs(x - math.floor(x)) - 0.5) < 1e-9:
+            return True
+    return False
+
+
+def default_omega(sys, indent_points, raw):
+    """omega_sys before any insertion (lines 1344-1369), default arguments, from the logarithmic grid `raw`"""
+    omega = np.concatenate((np.linspace(0, raw[0], indent_points), raw[1:]))
     if sys.isdtime(strict=True):
         nyq = math.pi / sys.dt
         omega = np.hstack((omega[omega < nyq], nyq))
     return omega
 
 
+def impl_raw_grid(sys):
+    """the logarithmic grid the implementation's own helper returns for nyquist_response's call (private helper:
+    may move; then only the contour comparison ties the grid to the documented range)"""
+    num = ct.config._get_param("freqplot", "number_of_samples", None)
+    omega, given = _fp._determine_omega_vector([sys], None, None, num, feature_periphery_decades=2)
+    assert not given
+    return np.asarray(omega, dtype=float)
+
+
+CFG_KEY = "freqplot.feature_periphery_decades"
+
+
 def run_case(case):
-    """everything observed on the real code for one case (not JSON: holds arrays)"""
+    """everything observed on the real code for one case (not JSON: holds arrays).  `case["cfg"]` (optional): the
+    user has configured another default periphery of frequency plots before the call (nyquist_response asks for
+    two decades explicitly, so the count must not depend on it); restored afterwards."""
+    if case.get("cfg") is None:
+        return run_case_(case)
+    missing = object()
+    old = ct.config.defaults.get(CFG_KEY, missing)
+    ct.config.defaults[CFG_KEY] = float(F(case["cfg"]))
+    try:
+        return run_case_(case)
+    finally:
+        if old is missing:
+            del ct.config.defaults[CFG_KEY]
+        else:
+            ct.config.defaults[CFG_KEY] = old
+
+
+def run_case_(case):
     out = {}
     sys = make_system(case)
     out["sys"] = sys
@@ -193,9 +338,18 @@ def run_case(case):
     try:
         out["zpoles"], out["spoles"] = splane_poles(sys, "ol")
         out["zclpoles"], out["sclpoles"] = splane_poles(sys, "cl")
-        out["omega"] = default_omega(sys, n)
-    except Exception as e:  # noqa  (private helpers moved: the contour sub-check is skipped)
+        # the documented default grid: logspace between the exponents of the model `nyquistExponents`
+        num = ct.config._get_param("freqplot", "number_of_samples", None)
+        out["logs"], out["interesting"] = spec_features(sys)
+        out["lohi"] = spec_exponents(out["logs"], out["interesting"])
+        out["raw"] = np.logspace(out["lohi"][0], out["lohi"][1], num=num, endpoint=True)
+        out["omega"] = default_omega(sys, n, out["raw"])
+    except Exception as e:  # noqa  (the contour sub-check is skipped)
         out["aux_exc"] = "%s: %s" % (type(e).__name__, str(e)[:120])
+    try:
+        out["raw_impl"] = impl_raw_grid(sys)
+    except Exception as e:  # noqa  (private helper moved)
+        out["raw_impl_exc"] = "%s: %s" % (type(e).__name__, str(e)[:120])
     return out
 
 
@@ -206,11 +360,15 @@ def finite(a):
 # ----------------------------------------------------------------------------
 class C13(Family):
     prop = "C13"
-    extra_modules = ["CtrlVerif.Props.C13Arg"]   # argument principle on the imaginary axis (H1, H3 discharged)
+    extra_modules = ["CtrlVerif.Props.C13Arg",    # argument principle on the imaginary axis (H1, H3 discharged)
+                     "CtrlVerif.Props.C13Grid"]   # default frequency grid: range, start at 0, end at Nyquist
     externals = ["numpy.angle (quadrant contract checked per sample)", "numpy.sqrt", "numpy.log / numpy.exp "
                  "(discrete-time contour mapping)", "poles() of the loop and of the closed loop "
                  "(numpy.roots / eigvals)", "evaluation of the loop on the contour (C04)",
-                 "_default_frequency_range (the grid itself is an input of the model)"]
+                 "numpy.log10 of the pole / zero magnitudes and their selection as in _default_frequency_range "
+                 "(inputs of the grid model Nyquist.rangeExponents), 10**x of numpy.logspace",
+                 "numpy.roots of the exact closed-loop polynomial of a forward-built loop (statistics and the "
+                 "classification of a violation only; Z itself is an exact Routh count)"]
     assumptions = ["argument principle (H3 of count_partial): PROVED for continuous-time loops without poles on "
                    "the imaginary axis and an unindented contour (C13Arg.count_continuous); still a hypothesis for "
                    "the indented contour (poles on / within indent_radius of the axis) and for discrete time",
@@ -219,15 +377,25 @@ class C13(Family):
                    "(histogram argprinciple_hyp), not proved",
                    "sampling hypothesis: consecutive samples of 1+L turn by less than pi "
                    "(hypothesis of discrete_winding; validated, not proved, by count == Z-P)",
+                   "forward-built loops (zeros, poles, gain): Z is the number of sign changes of the Routh table of "
+                   "den + num over Q (discrete time: after z = (1+w)/(1-w)), computed by the harness "
+                   "(families/c13_exact.py, self-tested against numpy.roots) for the exact polynomial and for the "
+                   "binary64 coefficients; not a Lean theorem",
                    "IEEE arithmetic not modelled: the integer count is compared exactly, guarded by the "
                    "model's branch margin; contour points within tolerance 1e-9 (+ sqrt sensitivity)"]
     rule = ("loops built backwards from exact open-loop poles (0-2 integrators, imaginary-axis, near-axis and "
             "lightly damped poles, orders 1-7) and closed-loop poles, gain k (biproper when k != 1, either sign), "
             "TF and SS, continuous and discrete (bilinear image, several sampling times, dt=True), "
-            "indent_direction right/left; non-trivial = dynamic loop with Z != 0 or P != 0 or an indentation")
+            "indent_direction right/left; plus loops given forwards as zeros / poles / gain with Z counted exactly "
+            "by Routh tables: high loop gain (|k| 30 .. 1e5, gain crossover decades above the dynamics), poles and "
+            "zeros spread over four decades, delays z^-n, sampling times 1/100 .. 5, and discrete-time loops with "
+            "every pole and zero within 3 % of the unit circle and a mode next to z = -1; per loop also the default "
+            "grid (range exponents, start at 0, end at Nyquist) against the model; "
+            "non-trivial = dynamic loop with Z != 0 or P != 0 or an indentation")
 
     def __init__(self):
         self._cache = {}
+        self._momega = {}
 
     # ---- generation -------------------------------------------------------
     MAG = ["1/4", "1/2", "1", "3/2", "2", "3", "5", "7/10", "13/10"]
@@ -246,7 +414,97 @@ class C13(Family):
                 out.append(r)
         return out
 
+    # ---- loops given forwards (zeros, poles, gain): Z by the exact Routh count ----------------------------
+    WIDE = ["1/100", "1/20", "1/10", "10", "20", "100"]
+    CIRC = ["97/100", "39/40", "49/50", "197/200", "99/100", "199/200", "201/200", "101/100", "51/50", "41/40"]
+    ZMOD = ["1/4", "1/2", "7/10", "9/10", "11/10", "3/2", "2"]
+    # rational points of the unit circle (upper half), from Pythagorean triples
+    DIRS = [("3/5", "4/5"), ("4/5", "3/5"), ("5/13", "12/13"), ("12/13", "5/13"), ("7/25", "24/25"),
+            ("24/25", "7/25"), ("0", "1"), ("-3/5", "4/5"), ("-4/5", "3/5"), ("-5/13", "12/13"),
+            ("-12/13", "5/13"), ("-7/25", "24/25"), ("-24/25", "7/25"), ("-40/41", "9/41"), ("-60/61", "11/61")]
+
+    def sroot(self, rng, mags, stable=None):
+        """s-plane root with magnitude-like parameters from `mags`"""
+        sgn = {None: rng.choice([-1, -1, 1]), True: -1, False: 1}[stable]
+        if rng.random() < 0.6:
+            return ["r", tok(sgn * F(rng.choice(mags)))]
+        return ["c", tok(sgn * F(rng.choice(mags))), tok(F(rng.choice(mags)))]
+
+    def zroot(self, rng, mods, neg=None):
+        """z-plane root of modulus exactly m in `mods`: real (sign `neg`) or m * (rational point of the unit circle)"""
+        m = F(rng.choice(mods))
+        if neg is not None or rng.random() < 0.5:
+            sgn = -1 if (neg if neg is not None else rng.random() < 0.4) else 1
+            return ["r", tok(sgn * m)]
+        c, sn = rng.choice(self.DIRS)
+        return ["c", tok(m * F(c)), tok(m * F(sn))]
+
+    def fill_with(self, rng, n, mk):
+        out = []
+        while deg(out) < n:
+            r = mk()
+            if deg(out) + mult(r) <= n:
+                out.append(r)
+        return out
+
+    def gen_fwd(self, rng, kind):
+        """forward-built loop L = k prod(x - z_i) / prod(x - p_i)
+        highgain : |k| from 30 to 1e5, slow poles/zeros: gain crossover far above the dynamics (the contour must
+                   extend the documented two decades beyond the fastest pole/zero)
+        zpk      : moderate gains, poles/zeros spread over up to four decades (stiff), delays z^-n in discrete time
+        dcircle  : discrete time, every pole and zero within 3 % of the unit circle and a mode next to z = -1
+                   (the logarithmic part of the default grid stops at 0.9 pi/dt: the contour must still end on z = -1)"""
+        disc = {"highgain": rng.random() < 0.25, "zpk": rng.random() < 0.5, "dcircle": True}[kind]
+        case = {"kind": kind, "form": "zpk", "disc": disc,
+                "T": rng.choice(["1/10", "1/4", "1/2", "1", "true", "1/100", "5"]) if disc else "0",
+                "rep": rng.choice(["tf", "tf", "ss"]), "dir": "right"}
+        n = rng.choice([1, 1, 2, 2, 2, 3, 3, 4])
+        ol = []
+        if kind == "highgain":
+            case["k"] = tok(rng.choice([-1, 1, 1]) * F(rng.choice(
+                ["30", "100", "200", "500", "1000", "3000", "10000", "100000"])))
+            if disc:
+                mk = lambda: self.zroot(rng, self.ZMOD)
+                if rng.random() < 0.2:
+                    ol.append(["r", "1"])
+            else:
+                mk = lambda: self.sroot(rng, self.MAG)
+                if rng.random() < 0.3:
+                    ol.append(["r", "0"])
+            ol += self.fill_with(rng, max(n - deg(ol), 1 if not ol else 0), mk)
+            zr = self.fill_with(rng, rng.choice([0, 0, 0, 1, 1, 2, 3]) if deg(ol) > 1 else rng.choice([0, 0, 1]), mk)
+        elif kind == "zpk":
+            case["k"] = tok(rng.choice([-1, 1, 1]) * F(rng.choice(
+                ["1/100", "1/10", "1/2", "1", "2", "5", "10", "30"])))
+            if disc:
+                mods = self.ZMOD + ["1/20", "19/20", "21/20", "5"]
+                mk = lambda: ["r", "0"] if rng.random() < 0.25 else self.zroot(rng, mods)
+                if rng.random() < 0.2:
+                    ol.append(["r", "1"])
+            else:
+                mags = self.MAG + self.WIDE
+                mk = lambda: self.sroot(rng, mags)
+                for _ in range(rng.choice([0, 0, 0, 1, 2])):
+                    ol.append(["r", "0"])
+            ol += self.fill_with(rng, max(n, 1), mk)
+            zr = self.fill_with(rng, rng.randint(0, deg(ol)), mk)
+        else:  # dcircle
+            case["k"] = tok(rng.choice([-1, 1, 1]) * F(rng.choice(
+                ["1/10", "1/5", "1/2", "1", "2", "3", "10", "30"])))
+            mk = lambda: self.zroot(rng, self.CIRC)
+            ol.append(self.zroot(rng, self.CIRC, neg=True))       # the mode next to z = -1
+            ol += self.fill_with(rng, n - 1, mk)
+            zr = self.fill_with(rng, rng.choice([0, 0, 0, 1, 1, 2]), mk)
+        while deg(zr) > deg(ol):
+            zr.pop()
+        case["ol"], case["zr"] = ol, zr
+        if rng.random() < 0.15:
+            case["cfg"] = rng.choice(["0", "1/2", "3"])      # user-configured default periphery (must not matter)
+        return case
+
     def gen_one(self, rng, kind):
+        if kind in FWD_KINDS:
+            return self.gen_fwd(rng, kind)
         disc = rng.random() < 0.45
         case = {"kind": kind, "disc": disc,
                 "T": rng.choice(["1/10", "1/4", "1/2", "1", "true", "1/8"]) if disc else "0",
@@ -299,11 +557,17 @@ class C13(Family):
                 "a": [tok(F(rng.randint(-64, 64), 8)) for _ in range(n)]}
 
     def generate(self, rng, tier):
-        n = 260 if tier == "quick" else 3000
+        n = 210 if tier == "quick" else 3000
         kinds = ["generic"] * 6 + ["axis", "near", "near", "light", "lightcl", "left"]
         out = []
         while len(out) < n:
             c = self.gen_one(rng, rng.choice(kinds))
+            if valid(c):
+                out.append(c)
+        nf = 90 if tier == "quick" else 1500          # loops given forwards
+        m = len(out) + nf
+        while len(out) < m:
+            c = self.gen_one(rng, rng.choice(FWD_KINDS))
             if valid(c):
                 out.append(c)
         out += [self.gen_unwrap(rng) for _ in range(40 if tier == "quick" else 600)]
@@ -322,6 +586,29 @@ class C13(Family):
             mk(ol=[["r", "0"]], cl=[["r", "-1"]], disc=True, T="1/2"),
             # lightly damped open-loop pair 10 radii from the axis: the default grid steps over the resonance
             mk(kind="light", ol=[["c", "-1/1000", "5"]], cl=[["c", "1/2", "5"]]),
+        ] + self.corpus_fwd()
+
+    def corpus_fwd(self):
+        base = {"kind": "corpus", "form": "zpk", "disc": False, "T": "0", "rep": "tf", "dir": "right", "zr": []}
+        mk = lambda **kw: dict(base, **kw)
+        return [
+            # high loop gain: the gain crossover lies more than a decade above the fastest pole / zero
+            mk(k="1000", ol=[["r", "-1"], ["r", "-2"]]),
+            mk(k="-200", ol=[["r", "-1"]], rep="ss"),
+            mk(k="500", ol=[["r", "0"], ["r", "-1"]]),
+            mk(k="400", ol=[["r", "1"], ["r", "-3"]], zr=[["r", "-2"]]),
+            # discrete time, all dynamics within 3 % of the unit circle, one mode next to z = -1
+            mk(k="3", ol=[["r", "99/100"], ["r", "-49/50"]], disc=True, T="1"),
+            mk(k="-1/5", ol=[["r", "99/100"], ["r", "-49/50"]], disc=True, T="1"),
+            mk(k="3", ol=[["r", "49/50"], ["r", "-39/40"]], disc=True, T="1/10", rep="ss"),
+            mk(k="3", ol=[["r", "51/50"], ["r", "-49/50"]], disc=True, T="1"),
+            mk(k="5/2", ol=[["r", "1/2"], ["r", "-2/5"]], zr=[["r", "1/5"]], disc=True, T="1"),
+            # a delay chain
+            mk(k="1/2", ol=[["r", "0"], ["r", "0"], ["r", "1/2"]], disc=True, T="true"),
+            # gain crossover beyond the documented default range (known finding C13-range-below-crossover)
+            mk(k="20000", ol=[["r", "-1"], ["r", "-2"]]),
+            # two modes next to z = -1 behind the 0.9 pi/dt end of the logarithmic grid (C13-dtime-nyquist-gap)
+            mk(k="1/10", ol=[["r", "-97/100"], ["r", "-199/200"]], disc=True, T="1/10"),
         ]
 
     # ---- execution --------------------------------------------------------
@@ -346,8 +633,8 @@ class C13(Family):
             ang = np.angle(resp + 1)
             parts = ["nyq count", PI_TOK, EPS_TOK, str(len(resp))]
             for z, a in zip(resp, ang):
-                re, im = cpair(z)
-                parts += [tok(re), tok(im), tok(fr(a))]
+                parts += ctoks(z)
+                parts.append(ftok(a))
             lines.append(" ".join(parts))
         # (b) contour
         if "exc" in o or "aux_exc" in o or not finite(o.get("spoles", np.array([np.nan]))) \
@@ -356,10 +643,9 @@ class C13(Family):
         else:
             parts = ["nyq contour", tok(fr(o["r"])), str(o["npts"]), case["dir"], str(len(o["spoles"]))]
             for p in o["spoles"]:
-                re, im = cpair(p)
-                parts += [tok(re), tok(im)]
+                parts += ctoks(p)
             parts.append(str(len(o["omega"])))
-            parts += [tok(fr(w)) for w in o["omega"]]
+            parts += [ftok(w) for w in o["omega"]]
             lines.append(" ".join(parts))
         # (c) P / Z conventions and the criterion warning
         if "exc" in o or "aux_exc" in o or not finite(o["zpoles"]) or not finite(o["zclpoles"]):
@@ -368,13 +654,28 @@ class C13(Family):
             parts = ["nyq pz", "0" if case["disc"] else "1", case["dir"], str(o["count"]),
                      str(len(o["zpoles"]))]
             for p in o["zpoles"]:
-                re, im = cpair(p)
-                parts += [tok(re), tok(im)]
+                parts += ctoks(p)
             parts.append(str(len(o["zclpoles"])))
             for p in o["zclpoles"]:
-                re, im = cpair(p)
-                parts += [tok(re), tok(im)]
+                parts += ctoks(p)
             lines.append(" ".join(parts))
+        # (d) exponents of the default grid, (e) omega_sys before points are inserted near poles
+        if "exc" in o or "aux_exc" in o or not finite(o["logs"]) or not finite(o["interesting"]) \
+                or not finite(o["raw"]):
+            lines += ["nyq unwrap 1 0", "nyq unwrap 1 0"]
+        else:
+            cfg = F(case["cfg"]) if case.get("cfg") is not None else fr(ct.config.defaults.get(CFG_KEY, 1))
+            parts = ["nyq grid", tok(cfg), str(len(o["logs"]))] + [ftok(x) for x in o["logs"]]
+            parts += [str(len(o["interesting"]))] + [ftok(x) for x in o["interesting"]]
+            lines.append(" ".join(parts))
+            sysd = o["sys"]
+            if sysd.isdtime(strict=True) or zlib.crc32(canon(case).encode()) % 4 == 0:
+                # every discrete-time case (the cut at the Nyquist frequency) and a quarter of the others
+                nyq = ftok(math.pi / sysd.dt) if sysd.isdtime(strict=True) else "N"
+                parts = ["nyq omega", str(o["npts"]), nyq, str(len(o["raw"]))] + [ftok(w) for w in o["raw"]]
+                lines.append(" ".join(parts))
+            else:
+                lines.append("nyq unwrap 1 0")
         return lines
 
     def in_claim(self, case, o):
@@ -386,18 +687,28 @@ class C13(Family):
             return False, "non-default-direction"
         r = F(1, 10000)
         nint = 0
-        Tmap = case_T(case)
+        disc = case["disc"]
         for rt in case["ol"]:
-            a = F(rt[1])
-            if a == 0:
-                if rt[0] == "c":
+            nat = native_root(rt, case)
+            a = F(nat[1])
+            b = F(nat[2]) if nat[0] == "c" else F(0)
+            on_boundary = (a * a + b * b == 1) if disc else (a == 0)
+            if on_boundary:
+                if nat[0] == "c" or (disc and a != 1):
                     return False, "imaginary-axis-pole"
                 nint += 1
             elif abs(self.boundary_dist(rt, case)) < GUARD_RADII * r:
                 return False, "near-axis-pole"
-        for rt in case["cl"]:
-            if abs(self.boundary_dist(rt, case)) < GUARD_RADII * r:
+        if fwd(case):
+            info = self.fwd_info(case)
+            if not info["strip"]:
                 return False, "near-axis-closed-loop-pole"
+            if not info["float_ok"]:
+                return False, "ill-conditioned-roots"
+        else:
+            for rt in case["cl"]:
+                if abs(self.boundary_dist(rt, case)) < GUARD_RADII * r:
+                    return False, "near-axis-closed-loop-pole"
         if "spoles" in o:
             sp = o["spoles"]
             if not finite(sp):
@@ -411,15 +722,82 @@ class C13(Family):
             # the binary64 coefficients must still represent the constructed loop: every true pole off the
             # boundary is matched by a computed pole much closer to it than the boundary is (repeated or
             # clustered roots move by eps^(1/m); then Z and P of the float system are not the constructed ones)
-            for roots, comp in ((case["ol"], o["zpoles"]), (case["cl"], o["zclpoles"])):
-                if not self.well_conditioned(case, roots, comp):
+            if not self.well_conditioned(case, case["ol"], o["zpoles"]):
+                return False, "ill-conditioned-roots"
+            if fwd(case):
+                # no exact closed-loop roots to match: the implementation's own closed-loop poles must at least
+                # give the exact count (the exact count of the binary64 coefficients was checked above)
+                zc = np.asarray(o["zclpoles"], dtype=complex)
+                nz = int((np.abs(zc) > 1).sum()) if disc else int((zc.real > 0).sum())
+                if len(zc) != deg(case["ol"]) or nz != build(case)[3]:
                     return False, "ill-conditioned-roots"
+            elif not self.well_conditioned(case, case["cl"], o["zclpoles"]):
+                return False, "ill-conditioned-roots"
         return True, "in-claim"
+
+    _FWD = {}
+
+    @classmethod
+    def fwd_info(cls, case):
+        """forward-built loop: exact facts about the closed-loop polynomial den + num (Routh tables over Q):
+        strip     – no closed-loop pole within GUARD (+1) indentation radii of the stability boundary, in the
+                    s-plane the code works in (discrete: 1 -+ 7 r dt bracket exp(-+ 6 r dt));
+        float_ok  – the same, and the same Z, for the binary64 coefficients taken as exact rationals (the system the
+                    implementation receives)."""
+        key = canon(case)
+        if key not in cls._FWD:
+            if len(cls._FWD) > 50000:
+                cls._FWD.clear()
+            num, den, _, Z = build(case)
+            r = F(1, 10000)
+            if case["disc"]:
+                dt = case_T(case)
+                delta = 7 * r * dt
+            else:
+                delta = (GUARD_RADII + 1) * r
+            clp = X.padd(den, num)
+            numf, denf = float_coeffs(case)
+            clf = X.padd([F(x) for x in denf], [F(x) for x in numf])
+            strip = X.strip_clear(clp, case["disc"], delta) is True
+            float_ok = strip and X.unstable_count(clf, case["disc"]) == Z and \
+                X.strip_clear(clf, case["disc"], delta) is True
+            cls._FWD[key] = {"strip": strip, "float_ok": float_ok}
+        return cls._FWD[key]
+
+    @staticmethod
+    def cl_numeric(case):
+        """closed-loop poles in the native plane as binary64 numbers: exact construction (backward form) or
+        numpy.roots of the exact closed-loop polynomial (forward form; used only for statistics and for the
+        classification of a violation, never for Z)"""
+        if fwd(case):
+            num, den, _, _ = build(case)
+            return list(np.roots([float(x) for x in X.padd(den, num)]))
+        return [q for rt in case["cl"] for (q, _) in C13.native_poles(rt, case)]
+
+    @staticmethod
+    def ol_numeric(case):
+        return [q for rt in case["ol"] for (q, _) in C13.native_poles(rt, case)]
+
+    @staticmethod
+    def loop_features(case):
+        """|poles|, |zeros| of L (native plane), the inputs of the documented default frequency range"""
+        num, den, _, _ = build(case)
+        numf = [float(x) for x in X.strip_lead(num)]
+        zs = list(np.abs(np.roots(numf))) if len(numf) > 1 else []
+        return [abs(q) for q in C13.ol_numeric(case)] + zs
+
+    def mechanism(self, case, o):
+        """why a sampled count can differ from Z - P (c13_exact.mechanism) on the contour the implementation used"""
+        dt = None
+        if case["disc"]:
+            dt = 1.0 if case["T"] == "true" else float(F(case["T"]))
+        return X.mechanism(self.cl_numeric(case), self.ol_numeric(case), o["contour"], case["disc"], dt,
+                           self.loop_features(case))
 
     @staticmethod
     def native_poles(rt, case):
         """true pole(s) of one root spec in the plane the system lives in, with the boundary distance"""
-        z = bilinear(rt, case_T(case)) if case["disc"] else rt
+        z = native_root(rt, case)
         a = float(F(z[1]))
         ps = [complex(a, 0.0)] if z[0] == "r" else [complex(a, float(F(z[2]))), complex(a, -float(F(z[2])))]
         return [(q, abs(abs(q) - 1.0) if case["disc"] else abs(q.real)) for q in ps]
@@ -473,8 +851,20 @@ class C13(Family):
         if case["kind"] == "unwrap":
             t = out.split()
             return {"out": [tok(F(x)) for x in t[2:]]} if t[0] == "ok" else {"err": out}
-        a, b, c = out
+        a, b, c, d, e = out
         m = {}
+        t = d.split()
+        if t[0] == "ok" and len(t) == 3:
+            m["grid"] = [tok(F(t[1])), tok(F(t[2]))]
+        t = e.split()
+        if t[0] == "err":
+            m["omega_err"] = t[1]
+        elif t[0] == "ok" and len(t) >= 2 and len(t) == 2 + int(t[1]) and int(t[1]) > 0:
+            # kept outside the model dict (the runner stores sample models in the evidence)
+            if len(self._momega) > 20000:
+                self._momega.clear()
+            self._momega[canon(case)] = np.array([float(F(x)) for x in t[2:]])
+            m["omega_n"] = int(t[1])
         t = a.split()
         if t[0] == "ok" and len(t) == 4:
             m["count"] = int(t[1])
@@ -504,7 +894,7 @@ class C13(Family):
     # ---- comparison -------------------------------------------------------
     def features(self, case, kind, extra=None):
         f = {"kind": kind, "timebase": "disc" if case["disc"] else "cont", "rep": case["rep"],
-             "lightly_damped": self.lightly_damped(case)}
+             "form": "zpk" if fwd(case) else "poles", "lightly_damped": self.lightly_damped(case)}
         if extra:
             f.update(extra)
         return f
@@ -514,7 +904,7 @@ class C13(Family):
         """the true pole in the s-plane the code works in (continuous: itself; discrete: log(z)/dt)"""
         if not case["disc"]:
             return complex(float(F(rt[1])), float(F(rt[2])) if rt[0] == "c" else 0.0)
-        z = bilinear(rt, case_T(case))
+        z = native_root(rt, case)
         zc = complex(float(F(z[1])), float(F(z[2])) if z[0] == "c" else 0.0)
         dt = 1.0 if case["T"] == "true" else float(F(case["T"]))
         if zc == 0:
@@ -526,11 +916,18 @@ class C13(Family):
         """some open- or closed-loop complex pole p (off the boundary) with |Re p| <= |Im p| / 100 in the
         s-plane the code works in: a resonance (or anti-resonance of 1+L) whose width 2|Re p| is at most about
         the spacing of the default 1000-point logarithmic grid (1.4 % of the frequency over six decades)"""
-        for r in case["ol"] + case["cl"]:
+        for r in case["ol"] + ([] if fwd(case) else case["cl"]):
             if r[0] == "c" and F(r[1]) != 0:
                 s = cls.splane_of(r, case)
                 if abs(s.real) * 100 <= abs(s.imag):
                     return True
+        if fwd(case):
+            dt = 1.0 if case["T"] == "true" else float(F(case["T"])) if case["disc"] else None
+            for q in cls.cl_numeric(case):
+                if q.imag != 0 and q != 0:
+                    s = complex(math.log(abs(q)), math.atan2(q.imag, q.real)) / dt if case["disc"] else q
+                    if abs(s.real) * 100 <= abs(s.imag):
+                        return True
         return False
 
     def compare(self, case, impl, model):
@@ -567,14 +964,57 @@ class C13(Family):
             if not edge and model["crit"] == impl["warn_criterion"]:
                 c_diff = "criterion warning %s but model Z=%d P=%d count=%d" % (
                     impl["warn_criterion"], model["Z"], model["P"], impl["count"])
+        # (d) the range of the default grid, (e) start at 0 / stop at the Nyquist frequency
+        d_diff = self.compare_grid(o, model)
+        e_diff = self.compare_omega(case, o, model)
         if prop_fails:
-            return Verdict(VIOLATES, "count %d but Z - P = %d - %d (exact construction)%s" % (
-                impl["count"], impl["Z"], impl["P"], "; " + a_diff if a_diff else ""),
-                self.features(case, "count-vs-ZP", {"model_count_agrees": a_diff is None}))
-        for kind, d in (("count-model", a_diff), ("contour", b_diff), ("criterion-warning", c_diff)):
+            mech = self.mechanism(case, o)
+            # known findings are about the adequacy of the DOCUMENTED default contour: they can only match when the
+            # contour the implementation used is the model's contour (documented grid, inserted points, indentation)
+            extra = {"model_count_agrees": a_diff is None,
+                     "contour_model_agrees": "_pts" in model and b_diff is None and d_diff is None and e_diff is None}
+            extra.update({k: mech[k] for k in ("sampling", "aliased_at", "spec_range")})
+            return Verdict(VIOLATES, "count %d but Z - P = %d - %d (exact %s)%s; contour: %s" % (
+                impl["count"], impl["Z"], impl["P"], "Routh count" if fwd(case) else "construction",
+                "; " + a_diff if a_diff else "", mech),
+                self.features(case, "count-vs-ZP", extra))
+        for kind, d in (("count-model", a_diff), ("grid-range", d_diff), ("omega", e_diff), ("contour", b_diff),
+                        ("criterion-warning", c_diff)):
             if d:
                 return Verdict(DIFFERS, d, self.features(case, kind))
         return Verdict(AGREE)
+
+    @staticmethod
+    def compare_grid(o, model):
+        """the model's exponents (exact arithmetic on the log10 values) against the harness replica that the contour
+        comparison is fed with, and against the grid the implementation's own helper returns"""
+        if "grid" not in model or "lohi" not in o or rint_marginal(o["logs"]):
+            return None
+        lo, hi = (F(x) for x in model["grid"])
+        if (fr(o["lohi"][0]), fr(o["lohi"][1])) != (lo, hi):
+            return "default grid exponents: model (%s, %s), binary64 replica of lines 2821-2829 %r" % (
+                model["grid"][0], model["grid"][1], o["lohi"])
+        if "raw_impl" in o:
+            got, want = o["raw_impl"], o["raw"]
+            if len(got) != len(want) or not np.allclose(got, want, rtol=1e-12, atol=0.0):
+                return ("default grid of the implementation: %d points from %.6g to %.6g rad/s; documented "
+                        "(feature_periphery_decades=2): %d points from 10^%s = %.6g to 10^%s = %.6g") % (
+                    len(got), got[0] if len(got) else math.nan, got[-1] if len(got) else math.nan,
+                    len(want), model["grid"][0], want[0], model["grid"][1], want[-1])
+        return None
+
+    def compare_omega(self, case, o, model):
+        if "omega_err" in model:
+            return "model defaultOmega raises %s" % model["omega_err"]
+        mo = self._momega.get(canon(case))
+        if "omega_n" not in model or mo is None or "omega" not in o:
+            return None
+        if len(mo) != len(o["omega"]):
+            return "omega_sys: model %d points, replica of lines 1344-1369 %d" % (len(mo), len(o["omega"]))
+        for i, (a, b) in enumerate(zip(mo, o["omega"])):
+            if abs(a - b) > 1e-12 * max(1.0, abs(b)):
+                return "omega_sys[%d]: model %r, replica %r" % (i, a, b)
+        return None
 
     def compare_contour(self, case, o, model):
         if "contour_err" in model:
@@ -631,7 +1071,13 @@ class C13(Family):
         if case["kind"] == "unwrap":
             return {"kind": "unwrap", "unwrap_len": len(case["a"]), "unwrap_changed": model.get("out") != case["a"]}
         st = {"kind": case["kind"], "timebase": "disc" if case["disc"] else "cont", "rep": case["rep"],
-              "order": deg(case["ol"]), "dir": case["dir"], "biproper": case["k"] != "1"}
+              "order": deg(case["ol"]), "dir": case["dir"],
+              "biproper": (deg(case["zr"]) == deg(case["ol"])) if fwd(case) else case["k"] != "1",
+              "form": "zpk" if fwd(case) else "poles", "configured_periphery": case.get("cfg", "default")}
+        if fwd(case):
+            g = abs(F(case["k"]))
+            st["gain"] = "<1" if g < 1 else "1..30" if g <= 30 else "30..1000" if g <= 1000 else ">1000"
+            st["relative_degree"] = deg(case["ol"]) - deg(case["zr"])
         if "err" in impl:
             st["outcome"] = "raises"
             return st
@@ -641,17 +1087,66 @@ class C13(Family):
                                       "in" if impl["in_claim"] else "out")
         st["moved_points"] = min(model.get("moved", -1), 1) if "_pts" in model else "n/a"
         st["count_checked"] = "count" in model
+        o = self.obs(case)
+        gc = [n for n, ok in (("exponents", "grid" in model and "lohi" in o and not rint_marginal(o["logs"])),
+                              ("helper-grid", "raw_impl" in o), ("omega", "omega_n" in model)) if ok]
+        st["grid_checked"] = "+".join(gc) if gc else "none"
         st["warned"] = impl["warn_criterion"]
-        hyp = hypotheses_label(case, self.obs(case))   # C13Arg.count_continuous: H2 + tail on the real contour
+        hyp = hypotheses_label(self.arg_case(case), o)   # C13Arg.count_continuous: H2 + tail on the real contour
         st["argprinciple_hyp"] = hyp
+        # mechanism statistics (all cases): is the contour sampled without aliasing / does the documented range close it
+        try:
+            mech = self.mechanism(case, o)
+        except Exception:  # noqa
+            mech = {"sampling": "n/a", "aliased_at": "none", "spec_range": "n/a"}
+        lab = "sampling=%s,spec_range=%s" % (mech["sampling"] if mech["sampling"] != "aliased" else
+                                             "aliased@" + mech["aliased_at"], mech["spec_range"])
+        st["contour"] = lab
+        if impl["in_claim"]:
+            st["contour:%s:count==Z-P" % lab] = impl["count"] == impl["Z"] - impl["P"]
         if hyp == "hold":
             st["argprinciple_hyp=hold:count==Z-P"] = impl["count"] == impl["Z"] - impl["P"]
         return st
+
+    @staticmethod
+    def arg_case(case):
+        """the case in the form c13_arg expects (root lists `ol`, `cl`, leading coefficient `k` of 1 + L); for a
+        forward-built loop the closed-loop roots are numpy.roots of the exact polynomial (statistics only)"""
+        if not fwd(case) or case["disc"]:
+            return case if not fwd(case) else dict(case, cl=[])
+        cl = []
+        for q in C13.cl_numeric(case):
+            if q.imag == 0:
+                cl.append(["r", tok(fr(q.real))])
+            elif q.imag > 0:
+                cl.append(["c", tok(fr(q.real)), tok(fr(q.imag))])
+        num, den, _, _ = build(case)
+        lead = X.padd(den, num)[0]
+        return dict(case, cl=cl, k=tok(lead))
 
     def shrink(self, case):
         if case["kind"] == "unwrap":
             for i in range(len(case["a"])):
                 yield dict(case, a=case["a"][:i] + case["a"][i + 1:])
+            return
+        if fwd(case):
+            ol, zr = case["ol"], case["zr"]
+            for i in range(len(ol)):
+                new = dict(case, ol=ol[:i] + ol[i + 1:])
+                if valid(new):
+                    yield new
+                for j in range(len(zr)):
+                    new = dict(case, ol=ol[:i] + ol[i + 1:], zr=zr[:j] + zr[j + 1:])
+                    if valid(new):
+                        yield new
+            for j in range(len(zr)):
+                new = dict(case, zr=zr[:j] + zr[j + 1:])
+                if valid(new):
+                    yield new
+            if case["disc"] and case["T"] != "1":
+                yield dict(case, T="1")
+            if "cfg" in case:
+                yield {k: v for k, v in case.items() if k != "cfg"}
             return
         # drop one open-loop root together with closed-loop roots of the same total degree
         ol, cl = case["ol"], case["cl"]
@@ -672,13 +1167,14 @@ class C13(Family):
             if valid(new):
                 yield new
 
+    KINDS = ("generic", "axis", "near", "light", "lightcl", "left") + FWD_KINDS
+
     def search(self, rng, case, tier):
         out = []
         if case["kind"] == "unwrap":
             return [self.gen_unwrap(rng) for _ in range(200)]
         for _ in range(200):
-            c = self.gen_one(rng, case.get("kind") if case.get("kind") in
-                             ("generic", "axis", "near", "light", "lightcl", "left") else "generic")
+            c = self.gen_one(rng, case.get("kind") if case.get("kind") in self.KINDS else "generic")
             if valid(c):
                 out.append(c)
         return out
